@@ -15,7 +15,7 @@ import (
 func init() {
 	register(&explore.Prop{
 		ID: "C18", Level: levelMC, Explorer: "E1 input-space enumerator",
-		Rule: "segments = MIX batches (built, persisted+loaded, self-merged so that single-doc terms are 1-hit encoded, and the empty batch) x every list of <=3 (thorough <=4) (field, term) pairs over fields {_id, a, b, unknown, \"\"} x terms {general, 1-hit candidate, doc id, absent}, repeats allowed; result bitmap compared with the model's union; " +
+		Rule: "segments = MIX batches and three batches with an indexed field whose name is the empty string (built, persisted+loaded, self-merged so that single-doc terms are 1-hit encoded, and the empty batch) x every list of <=3 (thorough <=4) (field, term) pairs over fields {_id, a, b, unknown, \"\"} x terms {general, 1-hit candidate, doc id, absent}, repeats allowed; result bitmap compared with the model's union; " +
 			"distinct = (segment, form, list); non-trivial = list has >=2 entries with a field switch, or names an unknown/empty field",
 		Assumptions: commonAssumptions, Budget: qBudget, Run: runC18,
 	})
@@ -41,7 +41,25 @@ func runC18(c *explore.Ctx) {
 		maxLen = 4
 	}
 	forms := []string{"built", "loaded", "merged"}
-	gen.Mix(K, nd, "m", func(bidx int64, batch []gen.Doc, kinds []int) bool {
+	// besides MIX: batches in which a field with the EMPTY NAME is indexed (then "" is a known field)
+	emptyNamed := func(yield func(bidx int64, batch []gen.Doc, kinds []int) bool) {
+		for v := 0; v < 3; v++ {
+			batch := []gen.Doc{gen.MixDoc(2, "m", 0), gen.MixDoc(1, "m", 1), gen.MixDoc(2, "m", 2)}
+			for d := range batch {
+				if (d+v)%2 == 0 {
+					batch[d] = append(batch[d], gen.Field{N: "", Len: 1, Terms: []gen.Term{{T: "x", Freq: 1}, {T: "zz", Freq: 1}}[:1+v%2]})
+				}
+			}
+			if !yield(int64(1000000+v), batch, []int{-1, v}) {
+				return
+			}
+		}
+	}
+	enumerate := func(yield func(bidx int64, batch []gen.Doc, kinds []int) bool) {
+		emptyNamed(yield)
+		gen.Mix(K, nd, "m", yield)
+	}
+	enumerate(func(bidx int64, batch []gen.Doc, kinds []int) bool {
 		ls := model.Build(batch)
 		for fi, form := range forms {
 			scope := fmt.Sprintf("MIX(%d,%d)#%d/%s", K, nd, bidx, form)
